@@ -19,7 +19,8 @@ fn model_json(i: usize, m: &LinearModel, kind: &str) -> Value {
     }).collect();
     let rows: Vec<Value> = m.constraints().iter().map(|r| json!({"name": r.name(), "a": r.coefficients().iter().map(|c| fs(*c)).collect::<Vec<_>>(),
         "cmp": match r.constraint_type() { Comparison::LessOrEqual => "le", Comparison::GreaterOrEqual => "ge", Comparison::Equal => "eq", Comparison::Less => "lt", Comparison::Greater => "gt" }, "b": fs(r.rhs())})).collect();
-    json!({"id": i, "kind": kind, "vars": m.variables(), "types": types, "rows": rows, "obj": m.objective().iter().map(|c| fs(*c)).collect::<Vec<_>>(),
+    let dom_order: Vec<String> = m.domain().keys().cloned().collect();
+    json!({"id": i, "kind": kind, "vars": m.variables(), "types": types, "rows": rows, "domain_order": dom_order, "obj": m.objective().iter().map(|c| fs(*c)).collect::<Vec<_>>(),
         "dir": match m.optimization_type() { OptimizationType::Min => "min", OptimizationType::Max => "max", OptimizationType::Satisfy => "sat" },
         "offset": fs(m.objective_offset()), "coq": linmodel(m), "text": m.to_string().replace('\n', " | ")})
 }
@@ -46,7 +47,15 @@ fn model_from_json(v: &Value) -> LinearModel {
     let dir = match v["dir"].as_str().unwrap() { "min" => OptimizationType::Min, "max" => OptimizationType::Max, _ => OptimizationType::Satisfy };
     m.set_objective(obj, dir);
     let off = v.get("offset").map(pf).unwrap_or(0.0);
-    if off != 0.0 { let (o, t, _, c, vs, d) = m.into_parts(); return LinearModel::new_from_parts(o, t, off, c, vs, d); }
+    // the domain map in the order the model was generated with (a compiled model lists its columns alphabetically and its
+    // domain in declaration order: the two orders are independent)
+    let order: Vec<String> = v.get("domain_order").and_then(|o| o.as_array()).map(|a| a.iter().map(|x| x.as_str().unwrap().to_string()).collect()).unwrap_or_default();
+    let reorder = !order.is_empty() && order.iter().ne(m.variables().iter());
+    if off != 0.0 || reorder {
+        let (o, t, _, c, vs, d) = m.into_parts();
+        let d = if reorder { let mut nd = indexmap::IndexMap::new(); for k in order.iter() { nd.insert(k.clone(), d.get(k).unwrap().clone()); } nd } else { d };
+        return LinearModel::new_from_parts(o, t, off, c, vs, d);
+    }
     m
 }
 
@@ -92,13 +101,18 @@ fn gen_model(r: &mut Rng, kind: &str) -> LinearModel {
     if small { for c in obj.iter_mut() { *c *= 0.03125; } }
     // shadow models: costs of very different magnitudes (prices of 1e4 and of 1e-5 are prices too)
     if kind == "shadow" && r.chance(1, 4) { let f = *r.pick(&[10000.0, 0.00005, 25000.0, 0.000125]); for c in obj.iter_mut() { *c *= f; } }
-    let dir = match r.below(if kind == "int" || kind == "mixed" { 7 } else { 6 }) { 0 | 1 | 2 => OptimizationType::Min, 3 | 4 | 5 => OptimizationType::Max, _ => OptimizationType::Satisfy };
+    let dir = match r.below(if kind == "int" || kind == "mixed" || kind == "bigint" { 7 } else { 6 }) { 0 | 1 | 2 => OptimizationType::Min, 3 | 4 | 5 => OptimizationType::Max, _ => OptimizationType::Satisfy };
     m.set_objective(obj, dir);
+    let rev = nv >= 2 && r.chance(1, 5);
+    let flip = |d: indexmap::IndexMap<String, rooc::model_transformer::DomainVariable>| -> indexmap::IndexMap<String, rooc::model_transformer::DomainVariable> {
+        if rev { d.into_iter().rev().collect() } else { d } };
     // a constant term in the objective (what `min 2x + 10` compiles to), for both directions
     if !matches!(m.optimization_type(), OptimizationType::Satisfy) && r.chance(1, 2) {
         let (o, t, _, c, v, d) = m.into_parts();
+        let d = flip(d);
         return LinearModel::new_from_parts(o, t, if small { *r.pick(&[0.25, -0.5, 0.125, -0.25, 0.0625]) } else if kind == "bigint" { *r.pick(&[10.0, -3.0, 0.5, 7.0, -12.5, -30.0, 40.0, -50.0, 25.0]) } else { *r.pick(&[10.0, -3.0, 0.5, 7.0, -12.5]) }, c, v, d);
     }
+    if rev { let (o, t, off, c, v, d) = m.into_parts(); return LinearModel::new_from_parts(o, t, off, c, v, flip(d)); }
     m
 }
 
@@ -134,6 +148,14 @@ fn corpus() -> Vec<LinearModel> {
         m.add_named_constraint(vec![1.0, 0.0], Comparison::LessOrEqual, cap, "b");
         m.set_objective(vec![1.0, 1.0], OptimizationType::Max);
         out.push(m);
+    }
+    // models without variables: decided by their constant rows (true and false ones, each relation)
+    for (cmp, rhs) in [(Comparison::GreaterOrEqual, 1.0), (Comparison::GreaterOrEqual, -1.0), (Comparison::LessOrEqual, 1.0), (Comparison::LessOrEqual, -1.0), (Comparison::Equal, 0.0), (Comparison::Equal, 1.0)] {
+        let mut m = LinearModel::new();
+        m.add_named_constraint(vec![], cmp, rhs, "k");
+        m.set_objective(vec![], OptimizationType::Min);
+        let (o, t, _, c, v, d) = m.into_parts();
+        out.push(LinearModel::new_from_parts(o, t, 7.0, c, v, d));
     }
     // F57: a model that is infeasible by less than the tableau's 1e-5 tolerance
     let mut m = LinearModel::new();
@@ -177,7 +199,7 @@ fn run_solver(m: &LinearModel, k: usize) -> Value {
 pub fn limit_options() -> Vec<(Option<std::time::Duration>, Option<f64>)> {
     use std::time::Duration;
     let tls = [None, Some(Duration::from_nanos(0)), Some(Duration::from_nanos(1000)), Some(Duration::from_micros(30)), Some(Duration::from_secs(5))];
-    let gaps = [None, Some(0.0), Some(1e-9), Some(0.2), Some(0.5), Some(10.0), Some(-1.0), Some(f64::NAN), Some(f64::INFINITY)];
+    let gaps = [None, Some(0.0), Some(1e-9), Some(0.2), Some(0.5), Some(1.0), Some(3.0), Some(10.0), Some(-1.0), Some(f64::NAN), Some(f64::INFINITY)];
     let mut out = Vec::new();
     for t in tls.iter() { for g in gaps.iter() { out.push((*t, *g)); } }
     out
